@@ -499,6 +499,7 @@ type placed struct {
 }
 
 type layout struct {
+	endLine, endBcol, endRcol int // position just behind the last character of the source
 	src      string
 	toks     []placed
 	sepSig   []string         // one entry per gap
@@ -645,6 +646,7 @@ func render(r *rand.Rand, lexs []lexeme, seps [][]sepEl) layout {
 		}
 	}
 	lo.src = w.sb.String()
+	lo.endLine, lo.endBcol, lo.endRcol = w.line, w.bcol, w.rcol
 	return lo
 }
 
@@ -671,7 +673,7 @@ func report(k *h.Case, key, msg string, details map[string]interface{}) {
 // ---------------------------------------------------------------------------
 // Running the real lexer
 
-func lexAll(src string, max int) (toks []token.Token, eofs int, pan interface{}) {
+func lexAll(src string, max int) (toks []token.Token, eofs int, pan interface{}, eofTok token.Token) {
 	defer func() {
 		if r := recover(); r != nil {
 			pan = r
@@ -682,6 +684,7 @@ func lexAll(src string, max int) (toks []token.Token, eofs int, pan interface{})
 		t := l.NextToken()
 		if string(t.Type) == "EOF" {
 			eofs = 1
+			eofTok = t
 			for i := 0; i < 3; i++ { // EOF must be sticky
 				if t2 := l.NextToken(); string(t2.Type) == "EOF" && t2.Literal == "" {
 					eofs++
@@ -718,7 +721,7 @@ func checkLayout(k *h.Case, lo layout, opt checkOpts) (rawLits []string, ok bool
 		k.Count("file_ends_inside_comment", 1)
 	}
 	src := lo.src
-	toks, eofs, pan := lexAll(src, len(lo.toks)+8)
+	toks, eofs, pan, eofTok := lexAll(src, len(lo.toks)+8)
 	k.SetSource(src)
 	if pan != nil {
 		report(k, "lexer-panic", fmt.Sprintf("lexer panicked on valid UTF-8 input without U+FFFD: %v", pan), map[string]interface{}{"source": src})
@@ -760,6 +763,15 @@ func checkLayout(k *h.Case, lo layout, opt checkOpts) (rawLits []string, ok bool
 			k.Count("tok."+p.class, 1)
 		}
 		return rawLits, true
+	}
+	// the EOF token sits just behind the last character of the source (it has no first character of its own; its
+	// position is what "unexpected end of file" diagnostics report)
+	if eofs > 0 {
+		if eofTok.LineNumber != lo.endLine || eofTok.StartCharIndex != lo.endBcol || eofTok.StartUtf8CharIndex != lo.endRcol {
+			report(k, "eof-position", fmt.Sprintf("the source ends at line %d, byte column %d, character column %d; the EOF token reports line %d, byte %d, character %d", lo.endLine, lo.endBcol, lo.endRcol, eofTok.LineNumber, eofTok.StartCharIndex, eofTok.StartUtf8CharIndex), map[string]interface{}{"source": lo.src})
+		} else {
+			k.Count("eof_positions_checked", 1)
+		}
 	}
 	// (b) start positions, (c) end positions
 	for i, p := range lo.toks {
